@@ -15,72 +15,72 @@ PY = "/venv/bin/python"
 # property -> (technique, decided, undecided, design section)
 CLAIMS_C04 = (
         "linear normal forms + dominance over XBuffer.allocate/grow/free (local obligations of an inductive free-list invariant)",
-        "Decides the local obligations A0-A8, G-1..G-5, F-0..F-5 on the source of context.py: round-up idiom of _align, returned offset = round-up(chunk.start, alignment), fit guard implies offset+size<=chunk.end for a chunk of the free list, served bytes leave the list before returning, growth copies every old byte at offset 0 before swapping storage, the new free range is exactly [old,new), freed range is [offset,offset+size), sorted insertion, merge pass; _new_buffer yields `capacity` bytes in every buffer kind; copy_to_native slice extents (rule B1).",
-        "The inductive invariant (pairwise disjoint free chunks inside [0,capacity) disjoint from live regions) is a paper argument in DESIGN.md 4.C04 that uses exactly these obligations; histories, concrete byte images and the power-of-two precondition on default_alignment are not decided.",
+        "Decides the local obligations A0-A8, G-1..G-5, F-0..F-5 on the source of context.py: round-up idiom of _align, returned offset = round-up(chunk.start, alignment), fit guard implies offset+size<=chunk.end for a chunk of the free list, served bytes leave the list before returning, growth copies every old byte at offset 0 before swapping storage, the new free range is exactly [old,new), freed range is [offset,offset+size), sorted insertion, merge pass; _new_buffer yields `capacity` bytes in every buffer kind; copy_to_native slice extents (rule B1). free() is evaluated on every order type of free list and freed region (FM, lists of up to 4/6 chunks): the result is the sorted, fully coalesced list with exactly the freed bytes added.",
+        "The inductive invariant (pairwise disjoint free chunks inside [0,capacity) disjoint from live regions) is a paper argument in DESIGN.md 4.C04 that uses exactly these obligations plus FM for free(); histories, concrete byte images and the power-of-two precondition on default_alignment are not decided.",
         "4.C04",
     )
 CLAIMS_C12 = (
         "linear normal forms, guard equivalence, may-be-empty typestate of the free list, structural first-fit scan rules",
-        "Decides on the source of context.py: the fit guard is equivalent (not merely sufficient) to offset+size<=chunk.end, the scan iterates self.chunks in list order and returns at the first fit, no growth before/inside the scan, every retry is preceded by growth with the same request, capacity is only ever increased, free cannot raise (no fixed-position index of a possibly empty list, no raise/assert/remove), touching chunks merge (non-strict overlaps, min/max merge), served bytes leave the free list exactly, only empty chunks are removed, get_free sums end-start over the list.",
-        "Step-by-step agreement with an executable first-fit model over histories, maximality of coalescing after arbitrary histories and recursion depth of the retry are not decided.",
+        "Decides on the source of context.py: the fit guard is equivalent (not merely sufficient) to offset+size<=chunk.end, the scan iterates self.chunks in list order and returns at the first fit, no growth before/inside the scan, every retry is preceded by growth with the same request, capacity is only ever increased, free cannot raise (no fixed-position index of a possibly empty list, no raise/assert/remove), touching chunks merge (non-strict overlaps, min/max merge), served bytes leave the free list exactly, only empty chunks are removed, get_free sums end-start over the list. free() is evaluated on every order type (FM): sorted, fully coalesced, leak-free, never raising, get_free accounting - i.e. step agreement of free with the first-fit/coalescing specification for every list of up to 4 (quick) / 6 (thorough) chunks.",
+        "Agreement with a first-fit model over whole HISTORIES of allocate/grow/free (only free is evaluated as a whole, on every order type within the list-length bound; allocate and grow are decided through their local obligations), lists longer than the bound, and the recursion depth of the retry are not decided.",
         "4.C12",
     )
 CLAIMS = {
     "C01": ("agreement of planner/writer/reader sites, order-aware flat writes, scalar dtype symmetry, slot-rounding of planners",
-            "Decides structural necessary conditions: scalar read/write helpers use one dtype/size/offset (SC) and the dtype<->C table (T5); planners advance by slot-rounded child sizes (L3); every flat write of an index-space quantity is brought to memory order and readers apply the inverse permutation (L4); plus the layout-agreement rules L1/L2/L6/L7 when present in the rule list of the evidence.",
+            "Decides structural necessary conditions: scalar read/write helpers use one dtype/size/offset (SC) and the dtype<->C table (T5); planners advance by slot-rounded child sizes (L3); every flat write of an index-space quantity is brought to memory order and readers apply the inverse permutation (L4); plus the layout-agreement rules L1/L2/L6/L7 when present in the rule list of the evidence. Copy-construction of structs places every field at the documented position for constructor-made and view-made sources (L2c).",
             "That the bytes decode to the same value (dtype conversion, UTF-8, NaN payloads), placement independence on concrete buffers.", "4.C01"),
     "C02": ("emitted-C template analysis (partial evaluation of capi emitters over class descriptors) + linear normal forms",
             "Decides over every statement template the generator can emit: offset statements are additive (T1), loads are base-relative (T2), constants equal the Python locators and the documented layout (T3), path parts are handled exhaustively (T4), scalar<->C types agree (T5).",
             "Numeric equality of addresses on concrete objects; the cffi call path.", "4.C02"),
     "C03": ("guards by dominance, planner rounding, round-up idiom table, leaf write extents",
-            "Decides: a size comparison dominates every in-place rewrite whose extent derives from the new value (G2), whole-object byte copies only for reference-free types and equal sizes (G1), planners slot-round child sizes (L3, A0), leaf writer extents are inside the planned size where the layout rules are present.",
+            "Decides: a size comparison dominates every in-place rewrite whose extent derives from the new value (G2), whole-object byte copies only for reference-free types and equal sizes (G1), planners slot-round child sizes (L3, A0), leaf writer extents are inside the planned size where the layout rules are present. Assignment through a field/an item is evaluated per kind of part (R12: leaves and references are rewritten at their own slot, dynamically sized leaves with the reserved size, compounds updated in place); array-like values of another shape or rank are refused before anything is written (R13).",
             "Byte-for-byte invariance of the rest of a concrete buffer; the nplike bulk path's extent depends on the run-time shape of the value.", "4.C03"),
     "C04": CLAIMS_C04,
     "C05": ("documented-layout oracle vs planner/writer sites, reference encoding normal forms, memory-order rule for flat tables",
             "Decides: slot rounding of parts (L3, A0), item offset table and bulk data are written in memory order (L4), relative reference encoding with the reserved null and [offset, typeid] word order (R08), plus header/field sequences against the documented table when L1/L2/L6 are present in the rule list.",
             "That an independent decoder recovers concrete values.", "4.C05"),
     "C06": ("attribute census / must-assign dataflow over materialisers, abstract rank inference, locator parity",
-            "Decides: every materialiser (__init__, _from_buffer, __setstate__) establishes the caches the view materialiser establishes, under the same class conditions (M1); every producer of the item-offset cache has rank nd (M2); get/set/offset-of share one locator (R10).",
+            "Decides: every materialiser (__init__, _from_buffer, __setstate__) establishes the caches the view materialiser establishes, under the same class conditions (M1); every producer of the item-offset cache has rank nd (M2); get/set/offset-of share one locator (R10). A handle restored through the class's pickle state methods equals a view for every descriptor (PS); handles keep (buffer, offset, structure caches) only - no memoised child view or value (M4); shared caches are never edited in place (M3).",
             "Observational equality of handle and view on concrete objects.", "4.C06"),
     "C07": ("get/set twin analysis over emitted-C templates",
             "Decides: setter and getter share one address computation and one typed access (C07.R1/R2) and the shared computation obeys T1-T3, T5.",
             "Sanitizer-clean execution; 'changes nothing else' on a concrete image.", "4.C07"),
     "C08": ("linear normal forms of the reference encoding, may-alias typestate of the stored object, null constants, no-native-storage-cache census",
-            "Decides: stored word = target offset - own slot and the readers apply the inverse (R08); an aliasing offset is stored only for an object of the same buffer or one constructed in it (G4); None arm writes the reserved constants and readers test them before arithmetic; recorded member index and constructed member derive from one key; growth preserves offsets (GR) and nobody caches native storage (NC).",
+            "Decides: stored word = target offset - own slot and the readers apply the inverse (R08); an aliasing offset is stored only for an object of the same buffer or one constructed in it (G4); None arm writes the reserved constants and readers test them before arithmetic; recorded member index and constructed member derive from one key; growth preserves offsets (GR) and nobody caches native storage (NC). The reference writers and readers are evaluated for every documented value kind (R14: alias only inside the holder's buffer, new object otherwise, relative encoding, reserved null, member id, refusal of non-members); plain data assigned to a reference never writes through to the old referent (R12).",
             "Liveness of targets over histories; type-name based aliasing against same-named foreign classes.", "4.C08"),
     "C09": ("dominance of the _has_refs guard over every whole-object byte copy, propagation of _has_refs, fresh-allocation rule",
-            "Decides: a raw byte copy is reachable only for reference-free types (G1) and _has_refs is True for both reference kinds and the OR over inner types in both container metaclasses (G1b); reference writers alias only same-buffer objects (G4); constructors allocate the planned size and write into that allocation (R09); cross-context dispatch of update_from_xbuffer (B3).",
+            "Decides: a raw byte copy is reachable only for reference-free types (G1) and _has_refs is True for both reference kinds and the OR over inner types in both container metaclasses (G1b); reference writers alias only same-buffer objects (G4); constructors allocate the planned size and write into that allocation (R09); cross-context dispatch of update_from_xbuffer (B3). Field-wise struct copies are placed per the documented layout (L2c); shared handle caches are never edited in place (M3); bulk copies of python attributes between hybrid handles are re-validated against the destination's storage (H6); _has_refs propagation is evaluated on the metaclasses (G1b).",
             "Value equality and storage disjointness of concrete copies.", "4.C09"),
     "C10": ("locator normal-form equality, dispatch exhaustiveness, capacity guards",
-            "Decides: get, set and offset-of share one index->offset form, fields go through one locator (R10); compounds are updated through their own _update and leaves are written at the located offset; only fitting values can be written (G2); byte copies only without references (G1).",
+            "Decides: get, set and offset-of share one index->offset form, fields go through one locator (R10); compounds are updated through their own _update and leaves are written at the located offset; only fitting values can be written (G2); byte copies only without references (G1). Assignment dispatch per kind of part (R12), partial struct updates write exactly the named fields (R15), string write extents (L6), no memoised views (M4), shared caches not edited in place (M3).",
             "That all other elements keep their values over a history.", "4.C10"),
     "C11": ("raising guard dominates the effect, per misuse class; refusal-precedes-mutation by may-follow analysis",
-            "Decides for each misuse class of the statement that a raising guard with the stated condition dominates the effect (R11: index bound, update length and shape, construction shape, union membership, foreign-context buffer, offset without buffer), the bound check dominates every locator (G3), capacity comparison precedes every in-place rewrite (G2), and no refusal is reachable after a mutation in functions that rewrite existing objects (G5).",
+            "Decides for each misuse class of the statement that a raising guard with the stated condition dominates the effect (R11: index bound, update length and shape, construction shape, union membership, foreign-context buffer, offset without buffer), the bound check dominates every locator (G3), capacity comparison precedes every in-place rewrite (G2), and no refusal is reachable after a mutation in functions that rewrite existing objects (G5). Shape/rank/arity refusals are evaluated for every array descriptor (R13), union non-members by evaluation of the writer (R14), string capacity from encoded bytes (L6).",
             "'Every existing object unchanged' on concrete buffers; misuse classes not enumerated by the statement.", "4.C11"),
     "C12": CLAIMS_C12,
     "C13": ("slice extent normal forms for 3 buffer classes x 9 primitives, copy-vs-view table, context dispatch, sibling signatures",
-            "Decides: every slice of a copy primitive is [lo : lo+n] with the documented offset parameter and one common length (B1, incl. the never-executed BufferCupy), dtype conversion precedes the byte transfer, extracting primitives copy and viewing primitives alias (B2), update_from_xbuffer dispatch (B3), sibling signature agreement (B4), scalar helpers built on them (SC), _new_buffer size (NB).",
+            "Decides: every slice of a copy primitive is [lo : lo+n] with the documented offset parameter and one common length (B1, incl. the never-executed BufferCupy), dtype conversion precedes the byte transfer, extracting primitives copy and viewing primitives alias (B2), update_from_xbuffer dispatch (B3), sibling signature agreement (B4), scalar helpers built on them (SC), _new_buffer size (NB). Copy/view classification of every extracting/viewing primitive by an abstract alias domain over the native storage (B2).",
             "Byte images on concrete buffers; dtype conversion values.", "4.C13"),
     "C14": ("flag-consumption by dominance, exhaustiveness of dependency collection, uniqueness analysis of the Kahn frontier, order-of-use",
-            "Decides: the cycle flag reaches a raise before any return (D1); dependency collection covers every container kind and closes transitively (D2); the two frontier sources of topological_sort are disjoint and the Kahn bookkeeping emits a node exactly when its last dependency was emitted (D4); the sorted list is used in order for API sources and cdefs, headers precede class sources precede user sources in all three contexts (D5); include guards when the template rules are present.",
+            "Decides: the cycle flag reaches a raise before any return (D1); dependency collection covers every container kind and closes transitively (D2); the two frontier sources of topological_sort are disjoint and the Kahn bookkeeping emits a node exactly when its last dependency was emitted (D4); the sorted list is used in order for API sources and cdefs, headers precede class sources precede user sources in all three contexts (D5); include guards when the template rules are present. No generator memoises its result on the class through an inheritance-following lookup (D6); the zoo's API has each accessor exactly once (T4.once).",
             "That Kahn's loop yields a topological order for every graph (algorithmic); that the emitted source compiles.", "4.C14"),
     "C15": ("abstract evaluation of the specialiser per target, substitution tables, qualifier placeholders in emitted templates",
             "Decides: target substitution only touches qualifier placeholders (S8), every pointer type of every emitted template carries the global-memory placeholder (T6), function qualifier (T7), target integer typedef widths (S10).",
             "Acceptance by a host C compiler.", "4.C15"),
     "C16": ("abstract evaluation of the specialiser per target and line class, ceil-division idiom table for the launch geometry",
-            "Decides: launch geometry (K6: CUDA grid = ceil(n/block) blocks, OpenCL global size n, n resolved from the named argument) and, when the specialiser rules S1-S9 are present in the rule list, the per-target loop/guard templates, brace balance, context-restricted lines, include splice and pass-through.",
+            "Decides: launch geometry (K6: CUDA grid = ceil(n/block) blocks, OpenCL global size n, n resolved from the named argument) and, when the specialiser rules S1-S9 are present in the rule list, the per-target loop/guard templates, brace balance, context-restricted lines, include splice and pass-through. One OpenMP predicate selects the specialisation target, omp.h, -fopenmp and omp_set_num_threads (S10.target); line classes are crossed with their origin (plain / included file).",
             "Results for concrete n on devices.", "4.C16"),
     "C17": ("linear normal form of pointer derivation, type-derivation rules, refusal guards, table oracle",
-            "Decides: xobjects are passed as address(current storage)+current offset typed by the declared class (K1), ndarrays as a pointer to their first element typed from their own dtype, xobject arrays from offset+data offset typed from their item type (K2), dtype<->C tables (T5/K3), positional refusal, arity check before conversion, declared order, identity return, cffi signature (K4), no cached native storage (NC).",
+            "Decides: xobjects are passed as address(current storage)+current offset typed by the declared class (K1), ndarrays as a pointer to their first element typed from their own dtype, xobject arrays from offset+data offset typed from their item type (K2), dtype<->C tables (T5/K3), positional refusal, arity check before conversion, declared order, identity return, cffi signature (K4), no cached native storage (NC). The ndarray pointer is derived from the caller's array itself, never through a call that may copy (K1.ndarray.nocopy); the cffi signature is evaluated on abstract kernels (K4.cdef).",
             "Exact values through cffi; the arity check is an assert (stripped by python -O).", "4.C17"),
     "C18": ("refusal guards and ordering, ownership-mark pairing, name-space typing of rename maps, view-restoration ordering",
-            "Decides: move refusals and their order w.r.t. reconstruction (H1), every stored dressed child is marked non-movable and views the container's field, _xobject restored after the python-side copy (H2), name-space typing xo/py of every field-name use (H4), reads go through the buffer (H5), cross-buffer reference refusal precedes the write (G5h).",
+            "Decides: move refusals and their order w.r.t. reconstruction (H1), every stored dressed child is marked non-movable and views the container's field, _xobject restored after the python-side copy (H2), name-space typing xo/py of every field-name use (H4), reads go through the buffer (H5), cross-buffer reference refusal precedes the write (G5h). Bulk attribute copies between hybrid handles are re-validated (H6: nested parts rebuilt, dressed referents dropped unless they view the referent); the data copy of a by-value assignment is skipped only for the same buffer AND offset (H7).",
             "Mirror/sync behaviour over histories; value equality after copy/move.", "4.C18"),
     "C19": ("guard polarity normalisation, key-space typing, producer/consumer form agreement",
-            "Decides: the plain-value store of to_dict is reached exactly under an inequality with the declared default (J1), defaults have a single source shared with the constructor (J2), both sides of the defaults lookup live in one name space (H4), JSON producer forms match what the constructors consume (J3).",
+            "Decides: the plain-value store of to_dict is reached exactly under an inequality with the declared default (J1), defaults have a single source shared with the constructor (J2), both sides of the defaults lookup live in one name space (H4), JSON producer forms match what the constructors consume (J3). to_dict elision is decided on paths: every path that stores nothing carries the fact value == declared default (J1).",
             "Value equality of rebuilt objects; multi-dimensional arrays.", "4.C19"),
     "C20": ("must-assign dataflow over materialisers, alias analysis of __getstate__, protocol pairing census",
-            "Decides: __setstate__ restores every cache the view materialiser establishes, no class defines half of the pickle protocol (M1); state is the buffer object itself plus offset, __getstate__ edits only a copy of the instance dict, contexts restore what they drop, buffers keep complete allocator state (P1).",
+            "Decides: __setstate__ restores every cache the view materialiser establishes, no class defines half of the pickle protocol (M1); state is the buffer object itself plus offset, __getstate__ edits only a copy of the instance dict, contexts restore what they drop, buffers keep complete allocator state (P1). The state round trip of the current __getstate__/__setstate__ (or the default protocol) is evaluated for every array and struct descriptor and compared with a view (PS).",
             "Usability/equality of concrete unpickled objects; importability of classes.", "4.C20"),
 }
 
